@@ -399,6 +399,32 @@ func checkC11(c *Ctx) {
 			r.Bad("C11.3", key, in.Pos(), fnName(f), "a construct that can panic or exit the process ("+construct+") is reachable from an external input entry point and is not in the reviewed table: attacker-supplied bytes can take the process down", seen[f]...)
 		})
 	}
+	// ---- C11.5 constant-bound slicing / indexing and allocation sizes on the same reachable set
+	r.Rule("C11.5", "constant-bound slices/indexes of dynamically sized values are dominated by a length test; allocation sizes come from in-memory lengths or are bounded", 10)
+	for _, f := range order {
+		for _, bc := range boundCandidates(f) {
+			key := fnName(f) + ": " + bc.construct
+			if bc.ok {
+				r.OK("C11.5", key, bc.in.Pos(), bc.why)
+				continue
+			}
+			reviewed := false
+			for _, rv := range c11BoundsTable {
+				if strings.HasSuffix(fnName(f), rv.fn) && strings.Contains(bc.construct, rv.construct) {
+					if rv.guardFalse != "" && !guarded(f, bc.in, Atom{rv.guardFalse, false}) {
+						continue
+					}
+					r.OK("C11.5", key+" (reviewed)", bc.in.Pos(), rv.reason)
+					reviewed = true
+					break
+				}
+			}
+			if !reviewed {
+				r.Bad("C11.5", key, bc.in.Pos(), fnName(f), "reachable from an external input entry point: "+bc.construct+" is not "+bc.why+" (and has no static length): a short / oversized attacker-supplied value panics the handler (slice bounds out of range, makeslice: len out of range) or exhausts memory", seen[f]...)
+			}
+		}
+	}
+
 	var en []string
 	for _, e := range entries {
 		en = append(en, e.Name())
@@ -562,4 +588,12 @@ func overridesStoreNil(c *Ctx, fld string) bool {
 	}
 	overrideNilMemo[fld] = res
 	return res
+}
+
+// c11BoundsTable: reviewed constant-bound accesses whose safety follows from an invariant the guard engine does
+// not see (one line of reason each).
+var c11BoundsTable = []struct{ fn, construct, reason, guardFalse string }{
+	{"DecoyRegistration).IDString", "make([]byte)[…16…]", "n = hex.Encode(secret, …) is the number of bytes written, which is len(secret); the slice is taken only under !(n < 16)", "(hex.Encode(make([]byte), reg.Keys.SharedSecret) < 16)"},
+	{"dtls.dtlsCtx$1", "serverCert.Certificate[0]", "serverCert comes from certsFromSeed/newCertificate, which always builds Certificate as a one-element literal; it is not peer input (rawCerts[0] next to it is length-tested)", ""},
+	{"dtls.hbConn).recvLoop", "make(…, c.maxMessageSize)", "maxMessageSize is the local SCTP association.s configured MaxMessageSize (pion default 65536, changed only by local configuration), not a value negotiated with or sent by the peer", ""},
 }
